@@ -22,7 +22,7 @@ ASSUMPTIONS = ['artist data under the Agg backend is inspected, not pixels', 'x-
                'np.arange(0, n/fs, 1/fs) (the time axis the plotting functions themselves use)',
                'view = samples a <= s < b; "strictly inside" = a < s < b - 1']
 
-WORDS_Q = ['aadaaazzaa', 'bbnbbdabbb', 'aaeaadnaab', 'dadaaaabnz']
+WORDS_Q = ['aadaaazzaa', 'bbnbbdabbb', 'aaeaadnaab', 'dadaaaabnz', 'wwawwdwwaw']      # the last: saw-tooth cycles whose decay flank is ONE sample long (a zero-crossing on an extremum sample)
 TABCFG = [('peak', 'cycles', 64), ('trough', 'cycles', 64), ('peak', 'cycles', 100), ('trough', 'cycles', 100),
           ('peak', 'amp', 64), ('trough', 'amp', 100)]
 THR = dict(S.T0, amp_fraction_threshold=.1)
